@@ -215,7 +215,8 @@ func buildL1(ctx sdk.Context, keys map[string]*storetypes.KVStoreKey, opts L1Opt
 		hook = ophosttypes.NewBridgeHooks()
 	} else {
 		// wired the way an application wires it: through the module's hook combinator
-		hook = ophosttypes.NewBridgeHooks(ophosthook.NewBridgeHook(ch, perm, ak.AddressCodec()))
+		// (followed by another, always succeeding hook, as other modules register theirs)
+		hook = ophosttypes.NewBridgeHooks(ophosthook.NewBridgeHook(ch, perm, ak.AddressCodec()), ophosttypes.NewBridgeHooks())
 	}
 
 	var obk ophosttypes.BankKeeper = bk
